@@ -161,3 +161,73 @@ Print Assumptions C07_projection_passthrough.
 Theorem C07_projection_fresh_aux : forall (ctor_prg : list stmt) (ins : list pred) (prg out : list stmt) (st' : Globals.unames), execute_core_state ctor_prg ins prg = Ok (out, st') -> exists (blks : list (list stmt)) (auxs : list pred), exec_trace (Globals.init_names ctor_prg ins) prg blks auxs st' /\ out = List.concat blks /\ NoDup auxs /\ (forall p : pred, In p auxs -> ~ In p (Globals.known (Globals.init_names ctor_prg ins)) /\ ~ In p ins /\ (forall s : stmt, In s ctor_prg -> ~ In p (map snd (Traverse.predicates Traverse.all_signs s))) /\ (exists k : nat, fst p = (Names.AUX_FUNC ++ Globals.string_of_nat k)%string)) /\ incl auxs (Globals.known st').
 Proof. exact (@execute_core_fresh_aux_proof). Qed.
 Print Assumptions C07_projection_fresh_aux.
+
+From NGO Require Import Link.PassthroughSpec.
+
+Theorem C07_passthrough_unused : forall (ctor_prg : list Ast.stmt) (ins outs : list Ast.pred) (prg out : list Ast.stmt), UnusedExecute.execute ctor_prg ins outs prg = Ast.Ok out -> filter non_rule_strict out = filter non_rule_strict prg.
+Proof. exact (@PassthroughSpec.passthrough_unused_proof). Qed.
+Print Assumptions C07_passthrough_unused.
+
+Theorem C07_passthrough_unused_show_term_refuted : exists (ctor : list Ast.stmt) (ins outs : list Ast.pred) (prg out : list Ast.stmt), UnusedExecute.execute ctor ins outs prg = Ast.Ok out /\ filter non_rule out <> filter non_rule prg.
+Proof. exact (@PassthroughSpec.passthrough_unused_show_term_refuted). Qed.
+Print Assumptions C07_passthrough_unused_show_term_refuted.
+
+Theorem C07_passthrough_unused_declared : forall (ins outs : list Ast.pred) (ctor_prg prg out : list Ast.stmt), PtUnused.shows_declared ins outs prg -> UnusedExecute.execute ctor_prg ins outs prg = Ast.Ok out -> filter non_rule out = filter non_rule prg.
+Proof. exact (@PassthroughSpec.passthrough_unused_declared_proof). Qed.
+Print Assumptions C07_passthrough_unused_declared.
+
+Theorem C07_passthrough_unused_auto : forall (ctor_prg : list Ast.stmt) (ins : list Ast.pred) (prg out : list Ast.stmt), UnusedExecute.execute ctor_prg ins (Traverse.auto_detect_output prg) prg = Ast.Ok out -> filter non_rule out = filter non_rule prg.
+Proof. exact (@PassthroughSpec.passthrough_unused_auto_proof). Qed.
+Print Assumptions C07_passthrough_unused_auto.
+
+Theorem C07_fresh_unused : forall (ctor_prg : list Ast.stmt) (ins outs : list Ast.pred) (prg out : list Ast.stmt) (st' : Unused.ustate), UnusedExecute.execute_st ins outs (Unused.init_state ctor_prg ins) prg = Ast.Ok (out, st') -> let invented := map PtUnused.nn_pred (Unused.new_names st') in Globals.run_requests (Globals.init_names ctor_prg ins) (map PtUnused.nn_req (Unused.new_names st')) = Ast.Ok (Unused.unique_names st', invented) /\ NoDup invented /\ (forall p : Ast.pred, In p invented -> ~ In p (Globals.known (Globals.init_names ctor_prg ins)) /\ ~ In p ins /\ (forall s : Ast.stmt, In s ctor_prg -> ~ In p (map snd (Traverse.predicates Traverse.all_signs s)))) /\ incl invented (Globals.known (Unused.unique_names st')).
+Proof. exact (@PassthroughSpec.fresh_unused_proof). Qed.
+Print Assumptions C07_fresh_unused.
+
+Theorem C07_passthrough_duplication : forall (prg : list Ast.stmt) (ins : list Ast.pred) (out : list Ast.stmt), Duplication.execute prg ins = Ast.Ok out -> filter non_rule out = filter non_rule prg.
+Proof. exact (@PassthroughSpec.passthrough_duplication_proof). Qed.
+Print Assumptions C07_passthrough_duplication.
+
+Theorem C07_duplication_shape_fresh : forall (ctor_prg : list Ast.stmt) (ins : list Ast.pred) (prg out : list Ast.stmt), Duplication.execute2 ctor_prg ins prg = Ast.Ok out -> filter non_rule out = filter non_rule prg /\ (exists (auxs : list Ast.pred) (names names' : Globals.unames), names_ext (Globals.init_names ctor_prg ins) names /\ names_log names auxs names' /\ PtDup.shuffle auxs prg out /\ NoDup auxs /\ (forall p : Ast.pred, In p auxs -> ~ In p (Globals.known (Globals.init_names ctor_prg ins)) /\ ~ In p ins /\ (forall s : Ast.stmt, In s ctor_prg -> ~ In p (map snd (Traverse.predicates Traverse.all_signs s))))).
+Proof. exact (@PassthroughSpec.duplication_shape_fresh_proof). Qed.
+Print Assumptions C07_duplication_shape_fresh.
+
+Theorem C07_passthrough_symmetry : forall (ctor_prg : list Ast.stmt) (ins : list Ast.pred) (prg out : list Ast.stmt), Symmetry.execute ctor_prg ins prg = Ast.Ok out -> filter non_rule out = filter non_rule prg.
+Proof. exact (@PassthroughSpec.passthrough_symmetry_proof). Qed.
+Print Assumptions C07_passthrough_symmetry.
+
+Theorem C07_names_symmetry : forall (ctor_prg : list Ast.stmt) (ins : list Ast.pred) (prg : list Ast.stmt) (st st' : Dependency.dstate) (r : Ast.result (list Ast.stmt)), Symmetry.init_translator ctor_prg ins = Ast.Ok st -> Symmetry.execute_m prg st = (st', r) -> names_ext (Globals.init_names ctor_prg ins) (Dependency.unique_names st) /\ names_ext (Dependency.unique_names st) (Dependency.unique_names st') /\ incl (Globals.known (Globals.init_names ctor_prg ins)) (Globals.known (Dependency.unique_names st')).
+Proof. exact (@PassthroughSpec.names_symmetry_proof). Qed.
+Print Assumptions C07_names_symmetry.
+
+Theorem C07_passthrough_inline : forall (ctor_prg : list Ast.stmt) (ins outs : list Ast.pred) (prg out : list Ast.stmt), Inline.run_execute ctor_prg ins outs prg = Ast.Ok out -> filter non_rule out = filter non_rule prg.
+Proof. exact (@PassthroughSpec.passthrough_inline_proof). Qed.
+Print Assumptions C07_passthrough_inline.
+
+Theorem C07_passthrough_sumchains : forall (prg : list Ast.stmt) (ins order : list Ast.pred) (out : list Ast.stmt), SumChains.execute prg ins order = Ast.Ok out -> filter non_rule out = filter non_rule prg.
+Proof. exact (@PassthroughSpec.passthrough_sumchains_proof). Qed.
+Print Assumptions C07_passthrough_sumchains.
+
+Theorem C07_names_sumchains : forall (prg : list Ast.stmt) (ins order : list Ast.pred) (sa : SumChains.sa_state) (cells : list SumChains.cellrows) (st : Dependency.dstate) (r : Ast.result (list Ast.stmt)), SumChains.sa_init prg ins order = Ast.Ok sa -> SumChains.execute_on sa prg cells = (st, r) -> names_ext (Globals.init_names prg ins) (Dependency.unique_names (SumChains.sa_dp sa)) /\ names_ext (Dependency.unique_names (SumChains.sa_dp sa)) (Dependency.unique_names st) /\ incl (Globals.known (Globals.init_names prg ins)) (Globals.known (Dependency.unique_names st)).
+Proof. exact (@PassthroughSpec.names_sumchains_proof). Qed.
+Print Assumptions C07_names_sumchains.
+
+Theorem C07_passthrough_minmax : forall (ctor_prg : list Ast.stmt) (ins : list Ast.pred) (prg out : list Ast.stmt), MinMax.mm_execute ctor_prg ins prg = Ast.Ok out -> filter non_rule out = filter non_rule prg.
+Proof. exact (@PassthroughSpec.passthrough_minmax_proof). Qed.
+Print Assumptions C07_passthrough_minmax.
+
+Theorem C07_names_minmax : forall (ctor_prg : list Ast.stmt) (ins : list Ast.pred) (prg : list Ast.stmt) (rd : Dependency.rdstate) (st st' : Dependency.dstate) (r : Ast.result (list Ast.stmt)), MinMax.mm_init ctor_prg ins = Ast.Ok (rd, st) -> MinMax.execute_m rd prg st = (st', r) -> names_ext (Globals.init_names ctor_prg ins) (Dependency.unique_names st) /\ names_ext (Dependency.unique_names st) (Dependency.unique_names st') /\ incl (Globals.known (Globals.init_names ctor_prg ins)) (Globals.known (Dependency.unique_names st')).
+Proof. exact (@PassthroughSpec.names_minmax_proof). Qed.
+Print Assumptions C07_names_minmax.
+
+Theorem C07_passthrough_preprocess : forall prg pre : list Ast.stmt, Normalize.preprocess prg = Ast.Ok pre -> filter non_rule_strict pre = filter non_rule_strict prg.
+Proof. exact (@PassthroughSpec.passthrough_preprocess_proof). Qed.
+Print Assumptions C07_passthrough_preprocess.
+
+Theorem C07_passthrough_optimize : forall (enabled : list string) (ins outs : list Ast.pred) (prg out : list Ast.stmt), Api.optimize enabled ins outs prg = Ast.Ok out -> (exists pre : list Ast.stmt, Normalize.preprocess prg = Ast.Ok pre /\ filter non_rule_strict out = filter non_rule_strict pre) /\ filter non_rule_strict out = filter non_rule_strict prg.
+Proof. exact (@PassthroughSpec.passthrough_optimize_proof). Qed.
+Print Assumptions C07_passthrough_optimize.
+
+Theorem C07_passthrough_optimize_declared : forall (enabled : list string) (ins outs : list Ast.pred) (prg out : list Ast.stmt), Api.optimize enabled ins outs prg = Ast.Ok out -> exists pre : list Ast.stmt, Normalize.preprocess prg = Ast.Ok pre /\ (PtUnused.shows_declared ins outs pre -> filter non_rule out = filter non_rule pre).
+Proof. exact (@PassthroughSpec.passthrough_optimize_declared_proof). Qed.
+Print Assumptions C07_passthrough_optimize_declared.
